@@ -49,6 +49,7 @@ type Node struct {
 	Params []string
 	Kids   []*Node
 	Level  int // KRaw infix: registered precedence level (xjs scale)
+	Paren  int // expressions: number of redundant parenthesis pairs written around this node in every rendering (not part of S)
 }
 
 func Id(n string) *Node               { return &Node{K: KIdent, Name: n} }
@@ -139,6 +140,12 @@ func (n *Node) S() string {
 
 func q(s string) string { return strconv.Quote(s) }
 
+// TplRaw is the "raw" value ECMAScript assigns to a template body: CR LF and lone CR are normalised to LF
+// (what acorn reports as quasi.value.raw); S-expressions of backtick strings use it on every side.
+func TplRaw(s string) string {
+	return strings.ReplaceAll(strings.ReplaceAll(s, "\r\n", "\n"), "\r", "\n")
+}
+
 func (n *Node) s(sb *strings.Builder) {
 	if n == nil {
 		sb.WriteString("_")
@@ -204,7 +211,7 @@ func (n *Node) s(sb *strings.Builder) {
 	case KStr:
 		w("(str ", jsstr.Meaning(n.Text), ")")
 	case KTpl:
-		w("(tpl ", q(n.Text), ")")
+		w("(tpl ", q(TplRaw(n.Text)), ")")
 	case KBool:
 		w("(", n.Name, ")")
 	case KNull:
